@@ -38,4 +38,5 @@ PATTERN_MAP = {
     "dojistar": dojistar,
     "hammer": hammer,
     "inv_hammer": inverted_hammer,
+    "inverted_hammer": inverted_hammer,
 }
